@@ -190,3 +190,30 @@ func PoolMatcher(property, eco string, pool []string) func(i, j, k int) string {
 // poolFast: per-class constructors of precomputed triple predicates; a
 // constructor returns nil when the class cannot apply to the ecosystem.
 var poolFast = map[string]func(eco string, pool []string) func(i, j, k int) bool{}
+
+// CycleInSet reports the active class (of property C01) that matches some
+// triple drawn from vs, or "". Properties that rely on a consistent order over
+// a set of versions (VERS intervals, sorting) use it to stay out of the
+// regions where the order itself is a recorded finding.
+func CycleInSet(ecoName string, vs []string) string {
+	any := false
+	for _, name := range classOrder {
+		if active["C01/"+name] {
+			any = true
+		}
+	}
+	if !any {
+		return ""
+	}
+	f := PoolMatcher("C01", ecoName, vs)
+	for i := 0; i < len(vs); i++ {
+		for j := i + 1; j < len(vs); j++ {
+			for k := j + 1; k < len(vs); k++ {
+				if cls := f(i, j, k); cls != "" {
+					return cls
+				}
+			}
+		}
+	}
+	return ""
+}
